@@ -6,6 +6,7 @@ Driver ops of C12 (model side of harness/rt/outbuf.go, outbuf_call.go):
                           programs of sendError's steps; further arguments are the
                           harness's generating parameters and are ignored); kind nats = `callNats`
   c12send <req> <kind> <q> …   `sendOnly` (Oneway: kinds nats/http/loop; Publish: natspub/stomp/looppub)
+  c12hdr <hex header> <n>      `handlerStatus` (NewFrugalHandlerFunc's reading of x-frugal-payload-limit)
   c12seq - <kind> <L> <steps>    `runSeq` (registration across a sequence of requests on one transport)
   c12g <q> <r> <Q> <R> <E> …   `callLoop` on sizes (generated-code suite harness/gen/suites/c12.py)
 Program: opcode c, c%4 = 0 write, 1 writeByte(c), 2 writeString, 3 reset; write/writeString
@@ -101,11 +102,17 @@ def stepOutBuf (op : String) (args : List String) : Option String :=
     let q ← q.toNat?
     let t ← if kind == "nats" then some natsTransport
             else if kind == "natspub" then some natsPublisher
-            else if kind == "http" || kind == "loop" then some (httpTransport q)
+            else if kind == "http" then some (httpTransport q)
+            else if kind == "loop" then some (limitTransport q)
             else if kind == "stomp" || kind == "looppub" then some (stompPublisher q)
             else none
     let o := sendOnly t (c12ParseN req)
     pure s!"sent={if o.sent then "y" else "n"} res={c12ErrName o.res}"
+  | "c12hdr", [h, n] => do
+    -- the HTTP handler alone: raw x-frugal-payload-limit header value (hex bytes), unframed reply size
+    let hb ← unhex h
+    let n ← n.toNat?
+    pure s!"status={handlerStatus (hb.map fun b => Char.ofNat b.toNat) n}"
   | "c12seq", [_, _kind, l, st] => do
     -- steps  <ctx>:<size>:<op>  ctx s(ame)/c(lone)/f(resh), size in bytes, op r(equest)/o(neway)
     let L ← l.toNat?
